@@ -718,11 +718,24 @@ def main(argv):
         ev_v = json.load(open(evp)) if os.path.exists(evp) else None
         rc_k = kani_engine.run('C11', a.tier, seed)
         if ev_v and os.path.exists(evp):
-            ev = json.load(open(evp))
-            ev['coverage']['verus_part'] = {k: ev_v['coverage'].get(k) for k in ('obligations', 'discharged', 'functions', 'checker_cmd', 'normalisations', 'extracted_items', 'undecided', 'modular_closure', 'back_end')}
-            ev['assumptions'] = sorted(set(ev.get('assumptions', [])) | set(ev_v.get('assumptions', [])))
-            ev['violations'] = ev.get('violations', 0) + ev_v.get('violations', 0)
-            ev['wall_s'] = round(ev.get('wall_s', 0) + ev_v.get('wall_s', 0), 2)
+            ev_k = json.load(open(evp))
+            # merged record, level proof: obligations = Verus function-level obligations + Kani rows (each row is one complete,
+            # loop-free harness decided by CBMC); the two engines' own records are kept under verus_part / kani_rows
+            ev = ev_v
+            ck = ev_k['coverage']
+            cv = ev['coverage']
+            cv['verus_part'] = {'obligations': cv.get('obligations', 0), 'discharged': cv.get('discharged', 0)}
+            cv['kani_rows'] = ck
+            cv['obligations'] = cv.get('obligations', 0) + ck.get('evaluations', 0)
+            cv['discharged'] = cv.get('discharged', 0) + ck.get('distinct_nontrivial', 0)
+            cv['checker_cmd'] = (cv.get('checker_cmd', '') + '; cargo kani -Z stubbing --harness <row> (one per row, in scratch copies of /repo)')[:4000]
+            cv['explanation'] = (cv.get('explanation', '') + ' Plus one obligation per Kani row: ' + ck.get('explanation', ''))
+            cv['trusted_base'] = sorted(set(cv.get('trusted_base', [])) | set(ev_k.get('assumptions', [])))
+            cv['samples'] = (cv.get('samples') or []) + (ck.get('samples') or [])[:4]
+            ev['assumptions'] = sorted(set(ev.get('assumptions', [])) | set(ev_k.get('assumptions', [])))
+            ev['violations'] = ev.get('violations', 0) + ev_k.get('violations', 0)
+            ev['wall_s'] = round(ev.get('wall_s', 0) + ev_k.get('wall_s', 0), 2)
+            ev['level'] = 'proof'
             json.dump(ev, open(evp, 'w'), indent=1)
         return 1 if 1 in (rc_v, rc_k) else (2 if 2 in (rc_v, rc_k) else 0)
     rc = check_property(a.prop, a.tier, seed, a.keep)
